@@ -486,6 +486,8 @@ func callShapeOracle(c *vh.Ctx) {
 		src, want string
 		pr        parseResult
 		res       vh.RunResult
+		pr2       parseResult
+		res2      vh.RunResult
 	}
 	outs := make([]outT, n)
 	vh.Parallel(n, func(i int) {
@@ -495,6 +497,16 @@ func callShapeOracle(c *vh.Ctx) {
 		o.pr = parseSrc(o.src, nil)
 		if o.pr.ok {
 			o.res = runProg(o.pr.prog, nil)
+		}
+		// the same with Go functions named like the program's AWK functions in ParserConfig.Funcs / Config.Funcs (overridden)
+		var names []string
+		for _, f := range progs[i].funcs {
+			names = append(names, f.name)
+		}
+		over := shadowFuncs(nil, names, i)
+		o.pr2 = parseSrc(o.src, over)
+		if o.pr2.ok {
+			o.res2 = runProg(o.pr2.prog, over)
 		}
 	})
 	for i, pg := range progs {
@@ -515,6 +527,15 @@ func callShapeOracle(c *vh.Ctx) {
 		case o.res.Out != o.want:
 			c.Fail(vh.Failure{Kind: "oracle", What: "arrays by reference / scalars by value: arrays and scalars after the calls differ from the reference evaluation",
 				Case: cs, Got: o.res.Out, Want: o.want})
+		}
+		c.OracleCase()
+		switch {
+		case o.pr2.panic_ != "" || !o.pr2.ok:
+			c.Fail(vh.Failure{Kind: "oracle", What: "call-shape program rejected or panicked when Funcs has entries named like its AWK functions", Case: cs, Got: o.pr2.msg + o.pr2.panic_, Want: "accepted"})
+		case o.pr2.types != o.pr.types:
+			c.Fail(vh.Failure{Kind: "oracle", What: "type table changes when Funcs has entries named like AWK functions", Case: cs, Got: o.pr2.types, Want: o.pr.types})
+		case o.res2.String() != o.res.String():
+			c.Fail(vh.Failure{Kind: "oracle", What: "behaviour changes when Funcs has entries named like AWK functions", Case: cs, Got: o.res2.String(), Want: o.res.String()})
 		}
 		if i%997 == 0 {
 			c.Sample(map[string]interface{}{"shape": "callshape", "src": o.src, "out": o.res.Out})
